@@ -156,14 +156,16 @@ def build_driver():
     od = os.path.join(BUILD, "ocaml")
     os.makedirs(od, exist_ok=True)
     drv = os.path.join(od, "driver")
-    srcs = glob.glob(os.path.join(COQ, "**", "*.v"), recursive=True) + glob.glob(os.path.join(ROOT, "ocaml", "*.ml"))
+    ext = open(os.path.join(COQ, "Extract.v"), encoding="utf-8").read()
+    mods = []
+    for line in re.findall(r"From EC Require Import\s+((?:[^.]|\.(?=[A-Za-z]))+)\.", ext, re.S):
+        mods.extend(line.split())
+    # the extracted code depends on the files Extract.v imports (and, transitively, on what those import: all under Model/, Spec/, Generated/, Base.v)
+    srcs = [os.path.join(COQ, "Extract.v"), os.path.join(COQ, "Base.v")] + glob.glob(os.path.join(COQ, "Model", "*.v")) + \
+        glob.glob(os.path.join(COQ, "Spec", "*.v")) + glob.glob(os.path.join(COQ, "Generated", "*.v")) + glob.glob(os.path.join(ROOT, "ocaml", "*.ml"))
     if os.path.exists(drv) and os.path.getmtime(drv) >= newest(srcs):
         return drv
     coq_makefile()
-    ext = open(os.path.join(COQ, "Extract.v"), encoding="utf-8").read()
-    mods = []
-    for line in re.findall(r"From EC Require Import\s+([^\n]+?)\.\s*$", ext, re.M):
-        mods.extend(line.split())
     targets = " ".join(m.replace(".", "/") + ".vo" for m in mods)
     rc, out, err = sh("timeout 3000 make -j%d %s" % (NPROC, targets), cwd=COQ, timeout=3100)
     if rc != 0:
